@@ -20,7 +20,7 @@ def sh(cmd, **kw):
 sh("git -C /repo worktree remove --force %s" % wt)
 sh("git -C /repo worktree add --detach %s HEAD" % wt)
 env = dict(os.environ, PYTHONPATH=wt + "/src", XDG_CACHE_HOME="/tmp/seed-%s%s-cache" % (pid, tag), PYTHONHASHSEED="0")
-for m in sorted(glob.glob(os.path.join(src, "m*"))):
+for m in sorted(d for d in glob.glob(os.path.join(src, "m*")) if os.path.isdir(d)):
     name = "%s-%s%s" % (pid, (tag + "-") if tag else "", os.path.basename(m))
     meta = json.load(open(os.path.join(m, "meta.json")))
     out = {"property": pid, "summary": meta.get("summary"), "needs": meta.get("needs"), "files": meta.get("files")}
